@@ -82,21 +82,21 @@ end stack
 
 namespace cat
 
-/-- `aten_cat`: tensors of shape `(0,)` are filtered only to decide between `Identity` and
-`Concat`; `Concat` then receives **all** tensors. -/
+/-- `aten_cat` (after fix 68ff4be): tensors of shape `(0,)` are dropped; nothing left → assertion;
+one left → `Identity`; otherwise `Concat` of the remaining tensors. -/
 def model (ss : List Shape) (dim : Int) : Option Shape :=
   let filtered := ss.filter (· != [0])
   match filtered with
   | [] => none
   | [s] => some s
-  | _ => concatOp ss dim
+  | _ => concatOp filtered dim
 
 def term (ss : List Shape) (dim : Int) : String :=
   let idx := (ss.zipIdx.filter (fun p => p.1 != [0])).map (·.2)
   match idx with
   | [] => "ERR"
   | [i] => tOp "Identity" ["x" ++ toString i]
-  | _ => tOp "Concat" ((List.range ss.length).map (fun i => "x" ++ toString i)) [("axis", tI dim)]
+  | _ => tOp "Concat" (idx.map (fun i => "x" ++ toString i)) [("axis", tI dim)]
 
 /-- `torch.cat` (TensorShape.cpp): 1-D empty tensors are skipped (legacy rule); the rest must have
 equal rank and equal sizes off `dim`; if everything is skipped the result is `[0]`. -/
